@@ -31,6 +31,12 @@ def _q(x):
 def impl(py):
     from labella import scale as sc
     s = sc.LinearScale().domain([py["a"], py["b"]])
+    LinearScale = sc.LinearScale
+    # another scale object is configured and used in between: scale objects share nothing
+    _o = LinearScale().domain([3.3, 977.1]).range([5, 6])
+    list(_o.ticks(23))
+    _o.tickFormat(23)
+    _o.nice()
     r = s.nice(py["m"])
     d = s.domain()
     step = sc.d3_scale_linearTickRange(list(d), py["m"])[2]
